@@ -75,6 +75,20 @@ CLAIMS['C08'] = dict(
          'exception return. The trace-level statement (next 1-4 instructions conditional) is implied, not decided.',
     note='Trusted: CPython ast; sa/refmodel.py; spec/enc_t16.json.')
 
+CLAIMS['C09'] = dict(
+    category='other', design_ref='DESIGN.md section 4 (C09)',
+    technique='bit-vector abstract interpretation (in-house ROBDD domain) of the 91 multiply / saturating / parallel / extend / '
+              'bit-field / reverse execute() bodies with symbolic operand registers, CPSR and decode-feasible control fields, compared '
+              'bit for bit with reference models transcribed from the architecture pseudocode; wide `*` and `/` are uninterpreted '
+              'symbols shared by both sides (operands matched semantically under the path condition); effect-walker frame / sticky-Q / '
+              'read-before-write / guard rules; interval widths',
+    text='Decides for every operand value, flag state and control field at once: result registers (operand selection, sign '
+         'interpretation, lane slicing and lane isolation, accumulate, rounding, truncation, saturation bounds, extension, bit-field '
+         'positions, byte/bit reversal, CLZ), N/Z from the truncated result, the sticky Q condition, GE[3:0], UNPREDICTABLE and '
+         'zero-divisor paths, and that nothing else changes. Trusted, not decided: that Python integer `*` and `/` are the '
+         'mathematical product and quotient. Not decided: USAD8/USADA8 values (BDD too large; their frame/guard/order/width are).',
+    note='Trusted: CPython ast; sa/oprefs.py (ARM ARM A8 pseudocode); register-number fields are bound to distinct indices, which is '
+         'sound because every operand read precedes every register write (C09-O, checked).')
 CLAIMS['C10'] = dict(
     category='proof', design_ref='DESIGN.md section 4 (C10), 2.4',
     technique='interval / bit-width abstract interpretation of every value reaching a register sink (helpers analysed '
